@@ -92,6 +92,21 @@ def simple_programs():
     for ref in (N('x'), E('x')):
         for opts in singles_and_pairs(VAR_ATTRS):
             yield 'var', [T('a'), ['var', ref, opts], T('b')]
+    # unquoted values that end in '/' (also as the last thing in the tag)
+    for opts in ([['missing', 'a/']], [['null', '-'], ['missing', '/']],
+                 [['missing', 'a/'], ['size', '3']],
+                 [['size', '1'], ['etc', '/']], [['fmt', 'a/b/']]):
+        for ref in (N('u'), N('x')):
+            yield 'var', [T('a'), ['var', ref, opts], T('b')]
+    # variables that are called like tags
+    for name in ('comment', 'return', 'if', 'in', 'else', 'call', 'with',
+                 'let', 'try', 'raise', 'unless', 'end'):
+        for opts in ([], [['upper', None]], [['missing', 'M']]):
+            yield 'var', [T('a'), ['var', N(name), opts], T('b')]
+    # ... and a variable that is called var (HTML syntaxes: %(var upper)s is
+    # the explicit spelling of the var tag for a variable called upper)
+    for opts in ([], [['upper', None]], [['missing', 'M']]):
+        yield 'var-named-var', [T('a'), ['var', N('var'), opts], T('b')]
     yield 'call', [['call', N('x')], T('t')]
     yield 'call', [['call', E('x()')], T('t')]
     yield 'return', [T('a'), ['return', N('x')], T('b')]
@@ -285,7 +300,12 @@ NAMESPACES = [
      'obj': ['obj', {'oa': ['lit', 'OA']}], 'mp': ['map', {'oa': ['lit', 'MA']}],
      'sk': ['lit', 'k'], 'rv': ['lit', 1], 'qs': ['lit', 2],
      'xy': ['lit', 1], 'yx': ['lit', 0],
-     'boom': ['raiser', 'boom', 'HB', 'bm'], 'HAc': ['exc', 'HA']},
+     'boom': ['raiser', 'boom', 'HB', 'bm'], 'HAc': ['exc', 'HA'],
+     'comment': ['lit', 'v-comment'], 'return': ['lit', 'v-return'],
+     'if': ['lit', 'v-if'], 'in': ['lit', 'v-in'], 'call': ['lit', 'v-call'],
+     'with': ['lit', 'v-with'], 'let': ['lit', 'v-let'],
+     'try': ['lit', 'v-try'], 'var': ['lit', 'v-var'],
+     'end': ['lit', 'v-end']},
     {'x': ['lit', ''], 'y': ['probe', 'y', ['lit', 'Y']], 'xy': ['lit', 0],
      'seq': ['seq', 'tuple', [['map', {'k': ['lit', 1], 'j': ['lit', 1]}]]],
      'empty': ['seq', 'list', []],
@@ -344,6 +364,8 @@ def run(case):
                 continue
             if sx != 'ssi' and 'ssiend' in style and len(style) == 1:
                 continue
+            if sx == 'epfs' and case['label'] == 'var-named-var':
+                continue        # %(var ...)s is the var tag itself
             try:
                 src, t, fp = compile_variant(nodes, sx, style)
             except ValueError:
